@@ -653,7 +653,7 @@ func genW(r *vh.Rand, kind int, sid uint32) string {
 			if r.Chance(1, 12) {
 				n = 256
 			}
-			pad = vh.Hex(make([]byte, n))
+			pad = vh.Hex(r.Bytes(n)) // padding octets are the caller's: they must reach the wire and stay untouched
 		}
 		return fmt.Sprintf("D,%d,%s,%s,%s", sid, b01(r.Bool()), vh.Hex(genLenBytes(r)), pad)
 	case 1:
